@@ -11,7 +11,12 @@
 (* well as strictly between them.                                          *)
 (***************************************************************************)
 EXTENDS PhiOps, TLC
-CONSTANTS MaxDepth, Configs, ExtraNew, UnitLimit
+CONSTANTS MaxDepth,     \* number of operations applied after the data are chosen
+          Configs,      \* tuples of grids (one per population) of the initial densities
+          ExtraNew,     \* grids for a new axis besides those of populations 1 and P
+          PropSet,      \* admixture proportions
+          UnitLimit,    \* every unit vector is used for arrays up to this size
+          ActLimit      \* operations are applied to densities up to this size
 
 G2 == <<"0", "1">>
 U3 == <<"0", "1/2", "1">>
@@ -25,7 +30,7 @@ AllGrids == {G2, U3, N3, U4, N4, U5, N5}
 ConfigsQuick ==
     {<<g>> : g \in AllGrids}
     \cup {<<g, h>> : g, h \in {G2, U3, N3, N4}}
-    \cup {<<U3, U3, U3>>, <<N3, U3, N3>>, <<U3, N3, G2>>}
+    \cup {<<U3, N3, G2>>, <<N3, U3, U3>>}
 ConfigsThorough ==
     {<<g>> : g \in AllGrids}
     \cup {<<g, h>> : g, h \in {G2, U3, N3, U4, N4, N5}} \cup {<<U5, U5>>}
@@ -33,6 +38,8 @@ ConfigsThorough ==
     \cup {<<N3, U3, N4>>, <<N4, N4, N4>>, <<G2, N4, U3>>, <<U4, G2, N3>>}
 ExtraNewQuick == {N4}
 ExtraNewThorough == {N4, N5}
+PropSetQuick == {"0", "1/4", "1/2", "1"}
+PropSetThorough == {"0", "1/4", "1/3", "1/2", "1"}
 
 VARIABLES s, depth
 vars == <<s, depth>>
@@ -56,7 +63,6 @@ DataChoices(sh) == {[k \in 1..Size(sh) |-> IF k = u THEN "1" ELSE "0"] : u \in U
 
 NP == Len(s.sh)
 Phi == [sh |-> s.sh, d |-> s.d]
-PropSet == {"0", "1/4", "1/3", "1/2", "1"}
 Free(n) == {f \in [1..n -> PropSet] : RLeq(RSum(f), "1")}
 Compl(f) == RSub("1", RSum(f))
 \* composition vectors: for a new population the last existing population takes the complement
@@ -85,7 +91,7 @@ DoReorder  == NP >= 2 /\ \E p \in Perms(NP) : Put(PhiReorder(Phi, p), ReorderSeq
 \* operations are applied to the generic density only (the unit vectors are there to decide
 \* the laws at depth 0; their images add nothing by linearity)
 Next == Choose \/
-        /\ depth >= 0 /\ depth < MaxDepth /\ s.gen /\ depth' = depth + 1
+        /\ depth >= 0 /\ depth < MaxDepth /\ s.gen /\ Size(s.sh) <= ActLimit /\ depth' = depth + 1
         /\ (DoSplit1D \/ DoSplit \/ DoAdmixNew \/ DoPulse \/ DoRemove \/ DoReorder)
 Spec == Init /\ [][Next]_vars
 
@@ -93,28 +99,33 @@ TypeOK == PhiWellFormed(Phi, s.gs)
 On == depth >= 0
 
 \* ------------- creating a population -------------
+\* (the clauses about one created density share its evaluation; each is a named predicate)
 \* integrating the new population out returns the input density, at every point
-L_AdmixMarginal == On => \A props \in AdmixProps(NP) : \A gn \in NewGrids :
-    PG_Trapz(PhiAdmixNew(Phi, s.gs, props, gn), gn, NP + 1).d = s.d
+AdmixMarginal(T, gn) == PG_Trapz(T, gn, NP + 1).d = s.d
 \* the new population carries the mixture frequency: the values deposited along the new axis
 \* interpolate it linearly,  sum_k x_k T[..,k] = z * sum_k T[..,k]   (the trapezoid first moment
-\* equals z only where the two bracketing points have equal trapezoid weights)
-L_AdmixMean == On => \A props \in AdmixProps(NP) : \A gn \in NewGrids :
-    LET T == PhiAdmixNew(Phi, s.gs, props, gn)
-        n == Len(gn)
-        ones == [v \in 1..n |-> "1"] IN
-    /\ \A j \in 1..Size(s.sh) : PG_WSum(T, gn, NP + 1).d[j] = RMul(MixFreq(props, s.gs, Unflat(s.sh, j)), PG_WSum(T, ones, NP + 1).d[j])
+\* equals z only where the two bracketing points have equal trapezoid weights); nothing negative
+AdmixMean(T, gn, props) ==
+    LET ones == [v \in 1..Len(gn) |-> "1"]
+        A == PG_WSum(T, gn, NP + 1)
+        B == PG_WSum(T, ones, NP + 1) IN
+    /\ \A j \in 1..Size(s.sh) : A.d[j] = RMul(MixFreq(props, s.gs, Unflat(s.sh, j)), B.d[j])
     /\ \A k \in 1..Len(T.d) : RNonNeg(T.d[k])
 \* the deposit is the normalised linear interpolation (hat functions) of the mixture frequency
-L_AdmixHat == On => \A props \in AdmixProps(NP) : \A gn \in NewGrids :
-    LET T == PhiAdmixNew(Phi, s.gs, props, gn)
-        n == Len(gn) IN
+AdmixHat(T, gn, props) ==
+    LET n == Len(gn) IN
     \A j \in 1..Size(s.sh) :
-       LET z == MixFreq(props, s.gs, Unflat(s.sh, j))
-           nrm == RSum([m \in 0..(n - 1) |-> RMul(PhiHat(gn, m, z), PG_W(gn, m))]) IN
-       \A k \in 0..(n - 1) : T.d[(j - 1) * n + k + 1] = RMul(s.d[j], RDiv(PhiHat(gn, k, z), nrm))
-\* relabelling the existing populations relabels the result
-L_AdmixRelabel == (On /\ NP >= 2) => \A props \in AdmixProps(NP) : \A p \in Perms(NP) :
+       IF s.d[j] = "0" THEN \A k \in 0..(n - 1) : T.d[(j - 1) * n + k + 1] = "0"
+       ELSE LET z == MixFreq(props, s.gs, Unflat(s.sh, j))
+                nrm == RSum([m \in 0..(n - 1) |-> RMul(PhiHat(gn, m, z), PG_W(gn, m))]) IN
+            \A k \in 0..(n - 1) : T.d[(j - 1) * n + k + 1] = RMul(s.d[j], RDiv(PhiHat(gn, k, z), nrm))
+AdmixMass(T, gn) == PhiMass(T, Append(s.gs, gn)) = PhiMass(Phi, s.gs)
+L_Admix == On => \A props \in AdmixProps(NP) : \A gn \in NewGrids :
+    LET T == PhiAdmixNew(Phi, s.gs, props, gn) IN
+    /\ T.sh = Append(s.sh, Len(gn)) /\ Len(T.d) = Size(T.sh)
+    /\ AdmixMarginal(T, gn) /\ AdmixMean(T, gn, props) /\ AdmixHat(T, gn, props) /\ AdmixMass(T, gn)
+\* relabelling the existing populations relabels the result (index bookkeeping: generic data)
+L_AdmixRelabel == (depth = 0 /\ s.gen /\ NP >= 2) => \A props \in AdmixProps(NP) : \A p \in Perms(NP) :
     PhiAdmixNew(PhiReorder(Phi, p), ReorderSeq(s.gs, p), ReorderSeq(props, p), s.gs[1])
       = PhiReorder(PhiAdmixNew(Phi, s.gs, props, s.gs[1]), Append(p, NP + 1))
 \* a pure split is a copy of the parent: on the parent's grid the density sits on the diagonal
@@ -140,28 +151,33 @@ L_Split1D == (On /\ NP = 1) =>
 
 \* ------------- pulses -------------
 L_PulseZero == On => \A dest \in 1..NP : PhiPulse(Phi, s.gs, dest, UnitVec(NP, dest)) = Phi
-L_PulseOthers == (On /\ NP >= 2) => \A dest \in 1..NP : \A props \in PulseProps(NP, dest) :
-    PhiRemove(PhiPulse(Phi, s.gs, dest, props), s.gs[dest], dest) = PhiRemove(Phi, s.gs[dest], dest)
+\* the joint density of the other populations is unchanged
+PulseOthers(Q, dest) == PhiRemove(Q, s.gs[dest], dest) = PhiRemove(Phi, s.gs[dest], dest)
 \* a pulse written out directly: every point v of the destination's old axis sends its mass
 \* W_v * phi to the two points bracketing its mixture frequency
-L_PulseHat == (On /\ NP >= 2) => \A dest \in 1..NP : \A props \in PulseProps(NP, dest) :
+PulseHat(Q, dest, props) ==
     LET g == s.gs[dest]
         n == Len(g)
-        Q == PhiPulse(Phi, s.gs, dest, props)
         z(ix) == MixFreq(props, s.gs, ix)
         nrm(zz) == RSum([m \in 0..(n - 1) |-> RMul(PhiHat(g, m, zz), PG_W(g, m))]) IN
     \A k \in 1..Size(s.sh) :
        LET ix == Unflat(s.sh, k) IN
        Q.d[k] = RSum([v \in 0..(n - 1) |->
                        LET src == [ix EXCEPT ![dest] = v] IN
-                       RMul(RMul(PG_W(g, v), PhiAt(Phi, src)), RDiv(PhiHat(g, ix[dest], z(src)), nrm(z(src))))])
+                       IF PhiAt(Phi, src) = "0" THEN "0"
+                       ELSE RMul(RMul(PG_W(g, v), PhiAt(Phi, src)), RDiv(PhiHat(g, ix[dest], z(src)), nrm(z(src))))])
 \* a pulse that replaces the destination completely = remove it and create it anew
-L_PulseReplace == (On /\ NP >= 2) => \A dest \in 1..NP : \A props \in PulseProps(NP, dest) :
+PulseReplace(Q, dest, props) ==
     props[dest] = "0" =>
-       PhiPulse(Phi, s.gs, dest, props)
-         = PhiReorder(PhiAdmixNew(PhiRemove(Phi, s.gs[dest], dest), RemoveAt(s.gs, dest), RemoveAt(props, dest), s.gs[dest]),
+       Q = PhiReorder(PhiAdmixNew(PhiRemove(Phi, s.gs[dest], dest), RemoveAt(s.gs, dest), RemoveAt(props, dest), s.gs[dest]),
                       MoveLastTo(NP, dest))
-L_PulseRelabel == (On /\ NP >= 2) => \A p \in Perms(NP) : \A dd \in 1..NP : \A props \in PulseProps(NP, p[dd]) :
+L_Pulse == (On /\ NP >= 2) => \A dest \in 1..NP : \A props \in PulseProps(NP, dest) :
+    LET Q == PhiPulse(Phi, s.gs, dest, props) IN
+    /\ Q.sh = s.sh /\ Len(Q.d) = Size(s.sh)
+    /\ PulseOthers(Q, dest) /\ PulseHat(Q, dest, props) /\ PulseReplace(Q, dest, props)
+    /\ PhiMass(Q, s.gs) = PhiMass(Phi, s.gs)
+    /\ \A k \in 1..Len(Q.d) : RNonNeg(Q.d[k])
+L_PulseRelabel == (depth = 0 /\ s.gen /\ NP >= 2) => \A p \in Perms(NP) : \A dd \in 1..NP : \A props \in PulseProps(NP, p[dd]) :
     PhiPulse(PhiReorder(Phi, p), ReorderSeq(s.gs, p), dd, ReorderSeq(props, p))
       = PhiReorder(PhiPulse(Phi, s.gs, p[dd], props), p)
 
@@ -172,22 +188,28 @@ L_ReorderIsPermutation == (On /\ NP >= 2) => \A p \in Perms(NP) :
     /\ \A k \in 1..Size(s.sh) : LET jx == Unflat(s.sh, k) IN PhiAt(R, ReorderSeq(jx, p)) = s.d[k]
 L_ReorderCompose == (On /\ NP >= 2) => \A p, q \in Perms(NP) :
     PhiReorder(PhiReorder(Phi, p), q) = PhiReorder(Phi, [j \in 1..NP |-> p[q[j]]])
+\* removing commutes with reordering
 L_RemoveReorder == (On /\ NP >= 2) => \A p \in Perms(NP) : \A j \in 1..NP :
-    PhiMass(PhiRemove(PhiReorder(Phi, p), s.gs[p[j]], j), RemoveAt(ReorderSeq(s.gs, p), j)) = PhiMass(Phi, s.gs)
+    PhiRemove(PhiReorder(Phi, p), s.gs[p[j]], j)
+      = PhiReorder(PhiRemove(Phi, s.gs[p[j]], p[j]),
+                   [m \in 1..(NP - 1) |-> LET o == RemoveAt(p, j)[m] IN IF o > p[j] THEN o - 1 ELSE o])
 L_RemoveFubini == (On /\ NP = 3) => \A a, b \in 1..NP : a < b =>
     PhiRemove(PhiRemove(Phi, s.gs[b], b), s.gs[a], a) = PhiRemove(PhiRemove(Phi, s.gs[a], a), s.gs[b], b - 1)
+\* removal is the explicit trapezoid sum
+L_RemoveIsTrapz == (On /\ NP >= 2) => \A a \in 1..NP :
+    LET R == PhiRemove(Phi, s.gs[a], a)
+        g == s.gs[a] IN
+    /\ R.sh = RemoveAt(s.sh, a)
+    /\ \A k \in 1..Size(R.sh) : LET ix == Unflat(R.sh, k) IN
+          R.d[k] = RSum([v \in 0..(Len(g) - 2) |->
+                           RMul(RHalf(PG_Dx(g, v)), RAdd(PhiAt(Phi, InsertAt(ix, a, v)), PhiAt(Phi, InsertAt(ix, a, v + 1))))])
+    /\ PhiMass(R, RemoveAt(s.gs, a)) = PhiMass(Phi, s.gs)
 \* filter = iterated removal (one common grid, as in dadi's signature)
 L_Filter == (On /\ NP >= 2 /\ \A k \in 1..NP : s.gs[k] = s.gs[1]) => \A a \in 1..NP :
     /\ PhiFilter(Phi, s.gs[1], (1..NP) \ {a}) = PhiRemove(Phi, s.gs[1], a)
     /\ PhiFilter(Phi, s.gs[1], 1..NP) = Phi
     /\ PhiFilter(Phi, s.gs[1], {a}).sh = <<s.sh[a]>>
     /\ PhiMass(PhiFilter(Phi, s.gs[1], {a}), <<s.gs[a]>>) = PhiMass(Phi, s.gs)
-\* total mass survives every operation
-L_Mass == On =>
-    LET m == PhiMass(Phi, s.gs) IN
-    /\ \A props \in AdmixProps(NP) : PhiMass(PhiAdmixNew(Phi, s.gs, props, s.gs[1]), Append(s.gs, s.gs[1])) = m
-    /\ \A dest \in 1..NP : \A props \in PulseProps(NP, dest) : PhiMass(PhiPulse(Phi, s.gs, dest, props), s.gs) = m
-    /\ \A a \in 1..NP : PhiMass(PhiRemove(Phi, s.gs[a], a), RemoveAt(s.gs, a)) = m
 
 \* the searchsorted rule on an irregular grid, written out
 ASSUME /\ PhiBracket("0", N5) = 1 /\ PhiBracket("1/8", N5) = 1 /\ PhiBracket("1/7", N5) = 2
